@@ -29,6 +29,45 @@ DictFrom(b, p, n, poolSize, acc) ==
        DictFrom(b, v.p, n - 1, poolSize, Append(acc, <<k.v, v.v>>))
 DecDict(b, p, poolSize) == LET r == DecCount(b, p) IN IF ~r.ok THEN Fail ELSE DictFrom(b, r.p, r.v, poolSize, <<>>)
 
+\* ---- the remaining fields: windows-zones mapping (4), zone locations (6), "zone 1970" locations (7); all strings pooled ----
+RECURSIVE IdxFrom(_, _, _, _, _)
+IdxFrom(b, p, n, poolSize, acc) ==
+  IF n = 0 THEN Ok(acc, p)
+  ELSE LET r == DecStringPooled(b, p, poolSize) IN IF ~r.ok THEN Fail ELSE IdxFrom(b, r.p, n - 1, poolSize, Append(acc, r.v))
+DecIdxList(b, p, poolSize) == LET r == DecCount(b, p) IN IF ~r.ok THEN Fail ELSE IdxFrom(b, r.p, r.v, poolSize, <<>>)
+\* one windows mapping: windows id, territory, list of tz ids
+DecMapZone(b, p, poolSize) ==
+  LET w == DecStringPooled(b, p, poolSize) IN IF ~w.ok THEN Fail ELSE
+  LET t == DecStringPooled(b, w.p, poolSize) IN IF ~t.ok THEN Fail ELSE
+  LET ids == DecIdxList(b, t.p, poolSize) IN IF ~ids.ok THEN Fail ELSE Ok([w |-> w.v, t |-> t.v, ids |-> ids.v], ids.p)
+RECURSIVE MapZonesFrom(_, _, _, _, _)
+MapZonesFrom(b, p, n, poolSize, acc) ==
+  IF n = 0 THEN Ok(acc, p)
+  ELSE LET r == DecMapZone(b, p, poolSize) IN IF ~r.ok THEN Fail ELSE MapZonesFrom(b, r.p, n - 1, poolSize, Append(acc, r.v))
+DecWindowsZones(b, p, poolSize) ==
+  LET hdr == IdxFrom(b, p, 3, poolSize, <<>>) IN IF ~hdr.ok THEN Fail ELSE      \* version, tzdb version, windows version
+  LET c == DecCount(b, hdr.p) IN IF ~c.ok THEN Fail ELSE
+  LET zs == MapZonesFrom(b, c.p, c.v, poolSize, <<>>) IN IF ~zs.ok THEN Fail ELSE Ok([hdr |-> hdr.v, zones |-> zs.v], zs.p)
+\* a location: latitude and longitude in seconds (signed), then country name, country code, zone id, comment
+DecLocation(b, p, poolSize) ==
+  LET la == DecSigned(b, p) IN IF ~la.ok THEN Fail ELSE
+  LET lo == DecSigned(b, la.p) IN IF ~lo.ok THEN Fail ELSE
+  LET s4 == IdxFrom(b, lo.p, 4, poolSize, <<>>) IN IF ~s4.ok THEN Fail ELSE Ok([lat |-> la.v, lon |-> lo.v, strs |-> s4.v], s4.p)
+\* a "zone 1970" location: latitude, longitude, count of countries, (name, code) pairs, zone id, comment
+DecLocation1970(b, p, poolSize) ==
+  LET la == DecSigned(b, p) IN IF ~la.ok THEN Fail ELSE
+  LET lo == DecSigned(b, la.p) IN IF ~lo.ok THEN Fail ELSE
+  LET c == DecCount(b, lo.p) IN IF ~c.ok THEN Fail ELSE
+  LET cs == IdxFrom(b, c.p, 2 * c.v, poolSize, <<>>) IN IF ~cs.ok THEN Fail ELSE
+  LET s2 == IdxFrom(b, cs.p, 2, poolSize, <<>>) IN IF ~s2.ok THEN Fail ELSE
+  Ok([lat |-> la.v, lon |-> lo.v, countries |-> cs.v, strs |-> s2.v], s2.p)
+RECURSIVE LocsFrom(_, _, _, _, _, _)
+LocsFrom(b, p, n, poolSize, acc, is1970) ==
+  IF n = 0 THEN Ok(acc, p)
+  ELSE LET r == IF is1970 THEN DecLocation1970(b, p, poolSize) ELSE DecLocation(b, p, poolSize) IN
+       IF ~r.ok THEN Fail ELSE LocsFrom(b, r.p, n - 1, poolSize, Append(acc, r.v), is1970)
+DecLocations(b, p, poolSize, is1970) == LET c == DecCount(b, p) IN IF ~c.ok THEN Fail ELSE LocsFrom(b, c.p, c.v, poolSize, <<>>, is1970)
+
 \* lexicographic order on byte sequences (= code point order of the UTF-8 strings)
 RECURSIVE LexLt(_, _)
 LexLt(x, y) == IF Len(y) = 0 THEN FALSE ELSE IF Len(x) = 0 THEN TRUE
